@@ -18,6 +18,8 @@ import (
 	"regexp"
 	"strconv"
 	"strings"
+	"syscall"
+	"time"
 	"unicode/utf8"
 )
 
@@ -741,6 +743,75 @@ func c04Oracle(c *oracleCtx) {
 		}
 		return ""
 	})
+	// paths that are not regular files: a named pipe reports size 0 and still delivers a document, a symbolic link
+	// delivers the bytes of its target, a directory cannot be read (round O/P, C04-O)
+	c.check("file:fifo", true, func() string {
+		for i, doc := range []string{`{"a":1,"b":["x",null,{"c":2.5}]}`, `{"a":`, ""} {
+			fp := filepath.Join(dir, fmt.Sprintf("doc%d.fifo", i))
+			if err := syscall.Mkfifo(fp, 0o600); err != nil {
+				return "" // no named pipes here: nothing to observe
+			}
+			doc := doc
+			go func() {
+				w, err := os.OpenFile(fp, os.O_WRONLY, 0) // blocks until a reader opens the pipe
+				if err != nil {
+					return
+				}
+				w.WriteString(doc)
+				w.Close()
+			}()
+			type outcome struct {
+				o Object
+				e error
+			}
+			done := make(chan outcome, 1)
+			go func() {
+				defer func() {
+					if r := recover(); r != nil {
+						done <- outcome{nil, fmt.Errorf("panic: %v", r)}
+					}
+				}()
+				o, e := ParseFile(fp)
+				done <- outcome{o, e}
+			}()
+			var got outcome
+			timedOut := false
+			select {
+			case got = <-done:
+			case <-time.After(20 * time.Second):
+				timedOut = true
+			}
+			// release the writer if nobody ever opened the pipe for reading
+			if fd, err := syscall.Open(fp, syscall.O_RDONLY|syscall.O_NONBLOCK, 0); err == nil {
+				time.Sleep(20 * time.Millisecond)
+				syscall.Close(fd)
+			}
+			if timedOut {
+				return "ParseFile does not return on a named pipe whose writer delivers a document and closes"
+			}
+			o2, e2 := ParseObject(doc)
+			if (got.e == nil) != (e2 == nil) || (got.o == nil) == (got.e == nil) || (got.e == nil && !got.o.Equals(o2)) {
+				return fmt.Sprintf("ParseFile on a named pipe delivering %q disagrees with ParseObject on those bytes (errors %v / %v)", doc, got.e, e2)
+			}
+		}
+		return ""
+	})
+	c.check("file:symlink-dir", true, func() string {
+		target := filepath.Join(dir, "target.json")
+		os.WriteFile(target, []byte(`{"s":[1,2,{"t":null}]}`), 0o600)
+		link := filepath.Join(dir, "link.json")
+		if err := os.Symlink(target, link); err == nil {
+			o1, e1 := ParseFile(link)
+			o2, _ := ParseObject(`{"s":[1,2,{"t":null}]}`)
+			if e1 != nil || o1 == nil || !o1.Equals(o2) {
+				return fmt.Sprintf("ParseFile through a symbolic link disagrees with ParseObject on the target's bytes (error %v)", e1)
+			}
+		}
+		if o, err := ParseFile(dir); o != nil || err == nil {
+			return "a directory given to ParseFile is not reported as unreadable"
+		}
+		return ""
+	})
 	c.check("file:missing", true, func() string {
 		o, err := ParseFile(filepath.Join(dir, "does-not-exist.json"))
 		if o != nil || err == nil {
@@ -748,7 +819,7 @@ func c04Oracle(c *oracleCtx) {
 		}
 		return ""
 	})
-	c.bound = "B-PFX: all proper prefixes and 6 kinds of ill-formed UTF-8 at every rune boundary of the serialised B-RT documents; all byte strings of length <= 4 (thorough 5) over a 17-symbol alphabet; 7 files"
+	c.bound = "B-PFX: all proper prefixes and 6 kinds of ill-formed UTF-8 at every rune boundary of the serialised B-RT documents; all byte strings of length <= 4 (thorough 5) over a 17-symbol alphabet; 7 files, 3 named pipes, a symbolic link, a directory"
 }
 
 // ---------------------------------------------------------------------------
